@@ -175,4 +175,8 @@ func init() {
 	t(sc("req", opt(oSD, 60), opt(oBE, 1), send(), send(), pass(140), opt(oBE, 0), send(), pass(75)))
 	t(sc("req", opt(oSD, 100), opt(oRD, 60), add(), send(), recv(), pass(75), pass(140)))
 	t(sc("req", opt(oRD, 100), opt(oSD, 60), send(), pass(75), pass(140)))
+	// a Send still waiting for a ready pipe and a Recv on the same context: the Recv's deadline passes first; the Send
+	// has its own (later) deadline and must not hang beyond it; then the same with a pipe turning up afterwards
+	t(sc("req", opt(oSD, 200), opt(oRD, 60), send(), recv(), pass(100), pass(140), pass(140)))
+	t(sc("req", opt(oRD, 60), send(), recv(), pass(100), add(), pass(40), send(), recv(), pass(100)))
 }
